@@ -557,6 +557,7 @@ func init() {
 			{Name: "i-tables", Quick: 30000, Thorough: 30000, Run: c19ITables, Exhaustive: "every I record with one extension, start/stop in 00..99, codes LAD/LOD/TDS (plus a second extension), B records of four lengths"},
 			{Name: "h-dte", Quick: 100000, Thorough: 1000000, Run: c19Dates, Exhaustive: "H DTE records over two-digit day, month, year fields (quick: years 00..09; thorough: all)"},
 		},
+		Extra: fuzzExtra("C19", 3000000),
 		Require: []string{"dates_covered", "dates_before_2000", "leap_days", "tracks_read_back", "crossed_day", "crossed_month", "crossed_year", "crossed_century", "writer_failures_injected",
 			"decode_seed", "decode_byte-mutation", "decode_truncated-b-record", "decode_i-record-forged", "decode_over-long-line", "decode_noise-before-a", "i_tables", "h_dte_records", "valid_dates_checked", "fixes_decoded"},
 	})
